@@ -102,10 +102,11 @@ class World(object):
                 v["byint"].append({"i": i, "a": 0})
         v["byname"] = []
         for k in list(dict.fromkeys(list(las.keys()) + ["Z", "A", "B", "UNKNOWN"])):
+            gc = las.get_curve(k)
             try:
-                v["byname"].append({"k": k, "a": arr_id(las[k])})
+                v["byname"].append({"k": k, "a": arr_id(las[k]), "gc": 0 if gc is None else arr_id(gc.data)})
             except KeyError:
-                v["byname"].append({"k": k, "a": 0})
+                v["byname"].append({"k": k, "a": 0, "gc": 0 if gc is None else arr_id(gc.data)})
         return v
 
     def snapshot(self, ev):
@@ -120,16 +121,24 @@ class World(object):
         ev = {k: v for k, v in e.items() if k not in ("nid", "nids", "exc")}
         ev["exc"] = ""
         try:
+            self.calls = getattr(self, "calls", 0) + 1
+            alt = self.calls % 2 == 0          # every second call uses the sibling API that must mean the same
             if op == "append_curve":
                 nid = self.fresh()[0]
                 ev["nid"] = nid
-                las.append_curve(e["n"], arr(e["a"]))
+                if alt:
+                    las.append_curve_item(CurveItem(e["n"], data=arr(e["a"])))
+                else:
+                    las.append_curve(e["n"], arr(e["a"]))
                 self.register(las.curves[-1], nid)
             elif op == "insert_curve":
                 nid = self.fresh()[0]
                 ev["nid"] = nid
                 before = set(id(c) for c in list.__iter__(las.curves))
-                las.insert_curve(e["i"], e["n"], arr(e["a"]))
+                if alt:
+                    las.insert_curve_item(e["i"], CurveItem(e["n"], data=arr(e["a"])))
+                else:
+                    las.insert_curve(e["i"], e["n"], arr(e["a"]))
                 for c in list.__iter__(las.curves):
                     if id(c) not in before:
                         self.register(c, nid)
@@ -181,7 +190,10 @@ class World(object):
                 ev["nids"] = nids
                 before = set(id(c) for c in list.__iter__(las.curves))
                 names = list(e["names"]) if e["names"] else None
-                las.set_data(A, names=names, truncate=bool(e["truncate"]))
+                if alt and names is None and not e["truncate"]:
+                    las.data = A                  # the property setter
+                else:
+                    las.set_data(A, names=names, truncate=bool(e["truncate"]))
                 new = [c for c in list.__iter__(las.curves) if id(c) not in before]
                 for c, nid in zip(new, nids):
                     self.register(c, nid)
